@@ -255,4 +255,12 @@ def rule_node(ctx: Ctx):
               "; ".join(sorted(set(bad))) or f"{listed} listed / {skipped} skipped iterations")
 
 
-RULES = [rule_graph, rule_initial, rule_edge, rule_label_source, rule_node]
+def rule_rendered_afresh(ctx: Ctx):
+    """C18.highlight: every rendering reads the machine as it is now: no method of the diagram builder is memoised."""
+    from ..wrappers import check_fresh
+
+    fns = [f for f in ctx.p.all_functions() if f.cls is not None and f.cls.name == CLS and f.parent is None]
+    check_fresh(ctx, "C18.highlight", fns, "exactly the current state is highlighted at every rendering")
+
+
+RULES = [rule_graph, rule_initial, rule_edge, rule_label_source, rule_node, rule_rendered_afresh]
